@@ -18,8 +18,9 @@ package lifecycle
 //verif:assume !is_fatal(global("tomb.ErrStillAlive")) because "tomb.ErrStillAlive is a plain sentinel created with errors.New; it contains no fatal marker"
 //verif:call[recover-only-transient] (*Service).recoverPipeline requires err$1 != global("tomb.ErrStillAlive") && !is_fatal(err$1) && called("(*Bool).Load@isGracefulShutdown") && !graceful() && called("(*Bool).Load@intentionalStop") && !intentional() && !called("PipelineService.UpdateStatus")
 //verif:call[status-matches-cause] PipelineService.UpdateStatus requires (arg2 == StatusDegraded ==> is_fatal(err$1) || called("(*Service).recoverPipeline") && result_of("(*Service).recoverPipeline", 0) != nil) && (arg2 == StatusUserStopped ==> !graceful() || called("(*Bool).Load@intentionalStop") && intentional()) && arg2 != StatusRunning && arg2 != StatusRecovering && (is_fatal(result_of("tomb.(*Tomb).Err", 0)) ==> arg2 == StatusDegraded)
-//verif:call[record-result-before-unpublishing] csync.(*Map).Delete requires called("csync.(*Map).Set")
-//verif:ensures[recovered-run-is-left-alone] called("(*Service).recoverPipeline") && result_of("(*Service).recoverPipeline", 0) == nil ==> ret == nil && !called("csync.(*Map).Delete") && !called("PipelineService.UpdateStatus") && !called("(*Service).notify")
+//verif:call[record-result-before-unpublishing-only-its-own-entry] (*Service).deleteRunningPipelineIfCurrent requires called("csync.(*Map).Set") && arg2 == deref(rp) && arg1 == deref(rp).pipeline.ID
+//verif:never csync.(*Map).Delete
+//verif:ensures[recovered-run-is-left-alone] called("(*Service).recoverPipeline") && result_of("(*Service).recoverPipeline", 0) == nil ==> ret == nil && !called("(*Service).deleteRunningPipelineIfCurrent") && !called("PipelineService.UpdateStatus") && !called("(*Service).notify")
 //verif:ensures[one-terminal-write] count("PipelineService.UpdateStatus") <= 1
 //verif:ensures[recover-at-most-once] count("(*Service).recoverPipeline") <= 1
 
@@ -70,7 +71,13 @@ package lifecycle
 // Every goroutine of the run is registered with the tomb before the run is
 // published, and the run is published before the status says Running.
 //verif:func (*Service).runPipeline(s, rp) (err)
-//verif:call[publish-after-goroutines-registered] csync.(*Map).Set requires arg2 == rp && called("tomb.(*Tomb).Go") && count("builtin.close") >= 1
+//verif:call[publish-after-goroutines-registered] csync.(*Map).Set requires arg2 == rp && called("tomb.(*Tomb).Go") && count("builtin.close") >= 1 && called("(*Mutex).Lock@publishMu") && !called("(*Mutex).Unlock@publishMu")
 //verif:call[publish-before-status] PipelineService.UpdateStatus requires called("csync.(*Map).Set") && arg2 == StatusRunning && count("builtin.close") == 1
 //verif:call[cleanup-released-only-after-the-running-status-write-returned] builtin.close requires count("builtin.close") == 0 && !called("csync.(*Map).Set") || count("builtin.close") == 1 && called("csync.(*Map).Set") && called("PipelineService.UpdateStatus")
 //verif:ensures[startup-signalled-on-every-path-after-publication] called("csync.(*Map).Set") ==> count("builtin.close") == 2
+
+// C11: compare-and-delete under the publication lock: a finished run's cleanup removes
+// the running-pipelines entry only if it is still that very run (a recovery's nested
+// Start may have published a newer run under the same id before failing).
+//verif:func (*Service).deleteRunningPipelineIfCurrent(s, id, rp)
+//verif:call[only-own-entry] csync.(*Map).Delete requires called("sync.(*Mutex).Lock") && count("sync.(*Mutex).Unlock") == 0 && result_of("csync.(*Map).Get", 1) && result_of("csync.(*Map).Get", 0) == rp && arg1 == id
